@@ -50,6 +50,8 @@ constexpr bool static_after_last_dyn() { return R > 0 && count_dyn() > 0 && SE[R
 constexpr sz RD      = count_dyn();
 constexpr bool ZS    = zero_static();          // a static extent is 0: the index space is empty for every value of the dynamic extents
 constexpr bool MIXED = RD > 0 && RD < R;
+constexpr bool multi() { for (sz r = 0; r < R; r++) if (SE[r] == DYN || SE[r] > 1) return true; return false; }
+constexpr bool MULTI = multi();           // the index space can hold more than one multi-index
 constexpr u64 ITMAX  = u64(std::numeric_limits<idx_t>::max());
 constexpr bool IT_IS_SIZE_T = std::is_same_v<idx_t, size_t>;
 
@@ -173,7 +175,7 @@ Q q_ctor_all()
             vf_assert(mi >= 0 && u64(mi) == want, #N ": m(i...) == closed-form offset");                                                         \
             vf_assert(u64(mi) < size, #N ": m(i...) < required_span_size()");                                                                    \
             vf_assert(same(i, j) || mi != mj, #N ": distinct multi-indices map to distinct offsets");                                            \
-            if (!same(i, j)) vf_witness("two distinct multi-indices");                                                                           \
+            if (MULTI && !same(i, j)) vf_witness("two distinct multi-indices");                                                                           \
             vf_assert(k_##N##_copy_map(e, i) == mi, #N ": copy construction/assignment preserves the mapping");                                  \
             vf_assert(u64(k_##N##_conv_it(e, i)) == want, #N ": mapping over another index type preserves the mapping");                         \
             Q_LAYOUT_RANK1(N)                                                                                                                    \
@@ -255,7 +257,7 @@ Q q_stride()
         vf_assert(mi >= 0 && u64(mi) == off_stride(s, i), "stride: m(i...) == sum i_r * stride_r");
         vf_assert(u64(mi) < span, "stride: m(i...) inside the required span");
         vf_assert(same(i, j) || mi != mj, "stride: distinct multi-indices map to distinct offsets");
-        if (!same(i, j)) vf_witness("two distinct multi-indices");
+        if (MULTI && !same(i, j)) vf_witness("two distinct multi-indices");
 #if RANK > 0
         vf_assert(k_stride_map_arr(e, s, i) == mi, "stride: mapping(extents, array) == mapping(extents, span)");
 #endif
@@ -396,7 +398,6 @@ Q q_sub_ext()
     bool pal = true; for (sz k = 0; k < n; k++) if (ks[k] != ks[n - 1 - k]) pal = false;
     VF_KNOWN(C19_submdspan_extents_reversed, !pal);
     VF_KNOWN(C19_extents_ctor_all_values, np == 0 && nd > 0 && nd < n);
-    if (n == 0) vf_witness("all dimensions dropped"); else if (n == R && R > 0) vf_witness("no dimension dropped");
     sz* orank = (sz*)vf_alloc(sizeof(sz)); sz* ost = (sz*)vf_alloc(R * sizeof(sz)); idx_t* oex = block();
     k_sub_ext(e, pat, iv, orank, ost, oex);
     vf_assert(*orank == n, "submdspan_extents: rank == number of non-integer slices");
